@@ -1364,7 +1364,14 @@ fn slab_z(rng: &mut Rng, lo: f64, hi: f64) -> f64 {
 }
 
 fn check_extrude(cx: &mut Cx, rng: &mut Rng, used: &mut Vec<&'static str>) -> Value {
-    let s = child(rng, true, used);
+    // (30%: an argument that is not z-independent, e.g. a 2D shape tilted
+    // about X or Y - the "XY shape" that is extruded is then its z = 0
+    // cross-section, the only reading under which the term is defined)
+    let flat = !rng.chance(0.3);
+    if !flat {
+        cx.st.inc("extrude_or_loft_of_non_flat_arguments");
+    }
+    let s = child(rng, flat, used);
     let (lo, h) = (coord(rng), radius(rng));
     let hi = lo + h;
     let desc = json!({"ExtrudeZ": {"lower": lo, "upper": hi, "shape": s.desc}});
@@ -1395,7 +1402,11 @@ fn check_extrude(cx: &mut Cx, rng: &mut Rng, used: &mut Vec<&'static str>) -> Va
 }
 
 fn check_loft(cx: &mut Cx, rng: &mut Rng, used: &mut Vec<&'static str>) -> Value {
-    let (a, b) = (child(rng, true, used), child(rng, true, used));
+    let flat = !rng.chance(0.3);
+    if !flat {
+        cx.st.inc("extrude_or_loft_of_non_flat_arguments");
+    }
+    let (a, b) = (child(rng, flat, used), child(rng, flat, used));
     let (lo, h) = (coord(rng), radius(rng));
     let hi = lo + h;
     let desc = json!({"LoftZ": {"lower": lo, "upper": hi, "a": a.desc, "b": b.desc}});
@@ -1786,7 +1797,7 @@ impl Prop for C16 {
     fn assumptions(&self) -> Vec<String> {
         vec![
             "rotations by a positive angle are right-handed (counter-clockwise seen from the tip of the axis), as in the crate's own RotateZ test".into(),
-            "2D primitives are judged in the plane z = 0 only; sweeps (ExtrudeZ, LoftZ, RevolveY) are judged with z-independent profiles only".into(),
+            "2D primitives are judged in the plane z = 0 only; RevolveY is judged with z-independent profiles only; for ExtrudeZ/LoftZ the profile is the z = 0 cross-section of the argument (30% of the arguments are not z-independent)".into(),
             "Plane as a shape: its surface is axis.p = offset, orientation not judged".into(),
             "LoftZ: only the slab bounds and the cross-sections 1% inside either end are judged (|near profile| >= 0.2, |far profile| <= 10)".into(),
             "ReflectXY with non-zero offset: only the involution property is judged".into(),
